@@ -567,6 +567,184 @@ theorem build_legal (fo : FloatOps) (c : StripeD) (arch : ArchD) (o : Oracle) (r
               rw [e9, hbc]; exact wf.blockConfig
             · exact ho
 
+/-- **Elementwise** (unary and binary, with or without the operand swap, with or without the output-scale override): under
+    `WellFormedEw` — the hypotheses of `WellFormed` stated for both input operands, since either may become IFM — and `hscalar`
+    (the quantised `ifm2_scalar` fits the IFM2 type: the register generator itself rejects anything else) the record passes
+    `OpCheck.fitsBlock`. -/
+theorem build_legal_elementwise (fo : FloatOps) (c0 : StripeD) (arch : ArchD) (o : Oracle) (r : Built) (maxAddr : Int)
+    (hew : c0.op.type.blockType = .elementWise) (wf : WellFormedEw c0 arch maxAddr) (ho : OracleFits o)
+    (hscalar : ∀ blk q f2, r.op = .block blk → blk.ifm2Scalar = some q → blk.ifm2 = some f2 →
+      (if f2.dtype.signed then -32768 ≤ q ∧ q < 32768 else 0 ≤ q ∧ q < 65536))
+    (h : convert fo (.stripe c0) arch o = .ok r) :
+    ∃ blk, r.op = .block blk ∧ OpCheck.fitsBlock blk maxAddr = [] := by
+  unfold convert at h
+  simp only at h
+  split at h
+  · cases h
+  · rename_i b hb
+    simp only [buildBlock, hew] at hb
+    -- the command after ordering, what `setCommon` built from it, IFM2 and the override
+    have hstruct : ∃ (c : StripeD) (b0 : BlockB) (u : EwUpd) (i2 : Option FmB), setCommon fo c arch .elementwise = .ok b0 ∧
+        b = applyUpd { b0 with subOp := b.subOp, ifm2 := i2, scalar := b.scalar, reversed := b.reversed } u ∧
+        ewFinish fo c0.op { b0 with subOp := b.subOp, ifm2 := i2, scalar := b.scalar, reversed := b.reversed } = .ok u ∧
+        c.op = c0.op ∧ c.psOps = c0.psOps ∧ c.ofm = c0.ofm ∧ c.ofmBox = c0.ofmBox ∧ c.ofmShape0 = c0.ofmShape0 ∧
+        c.weight = c0.weight ∧ c.weightDepth = c0.weightDepth ∧ c.scale = c0.scale ∧ c.blockConfig = c0.blockConfig ∧
+        InTriple c0 c.ifm c.ifmBox c.ifmShape0 ∧
+        (∀ f2, i2 = some f2 → ∃ t bx sh fm2, InTriple c0 t bx sh ∧
+          createFm t bx arch sh c0.op.tileOffsIfm1 none false = .ok fm2 ∧
+          ∃ S, f2 = withQuant { fm2 with shape := S } (getIfmQuant c0 t)) := by
+      unfold createElementwise at hb
+      split at hb
+      · cases hb
+      · rename_i sub hsub
+        by_cases hun : isUnaryEw sub = true
+        · simp only [hun, ↓reduceIte] at hb
+          split at hb
+          · cases hb
+          · rename_i b0 hb0
+            split at hb
+            · cases hb
+            · rename_i u hu
+              injection hb with hb
+              subst hb
+              have hb2 := (setCommon_ew_fields fo c0 arch b0 hew hb0).2.2.2.2.2
+              refine ⟨c0, b0, u, none, hb0, ?_, ?_, rfl, rfl, rfl, rfl, rfl, rfl, rfl, rfl, rfl, Or.inl ⟨rfl, rfl, rfl⟩, ?_⟩
+              · simp [applyUpd, hb2.1, hb2.2.1]
+              · simpa [applyUpd, hb2.1, hb2.2.1] using hu
+              · intro f2 hf2; cases hf2
+        · have hun' : isUnaryEw sub = false := by simpa using hun
+          simp only [hun', Bool.false_eq_true, ↓reduceIte] at hb
+          split at hb
+          · cases hb
+          · rename_i c rev hord
+            split at hb
+            · cases hb
+            · rename_i f2 sc hf2
+              split at hb
+              · cases hb
+              · rename_i b0 hb0
+                split at hb
+                · cases hb
+                · rename_i u hu
+                  injection hb with hb
+                  subst hb
+                  obtain ⟨s1, s2, s3, s4, s5, s6, s7, s8, s9, s10, s11⟩ := ewOrder_same c0 c rev hord
+                  obtain ⟨t2', b2', s1', fm2, hc2, hcb2, hcs1, hfm2, hf2eq, _, _⟩ := ewIfm2_spec c arch f2 sc hf2
+                  refine ⟨c, b0, u, some f2, hb0, ?_, ?_, s1, s2, s3, s4, s5, s6, s7, s8, s9, s10, ?_⟩
+                  · simp [applyUpd]
+                  · simpa [applyUpd] using hu
+                  · intro f2' hf2'
+                    injection hf2' with hf2'
+                    subst hf2'
+                    refine ⟨t2', b2', s1', fm2, s11 t2' b2' s1' hc2 hcb2 hcs1, s1 ▸ hfm2,
+                      (if t2'.isScalar then ⟨0, 0, 0⟩ else blockOf b2'), ?_⟩
+                    rw [hf2eq, getIfmQuant_congr c0 c s1 s2]
+    obtain ⟨c, b0, u, i2, hb0, hbeq, hu, s1, s2, s3, s4, s5, s6, s7, s8, s9, s10, hi2⟩ := hstruct
+    have hbtc : c.op.type.blockType = .elementWise := by rw [s1]; exact hew
+    obtain ⟨hifm, hofm, hw, hk, hp, _, _, hkind, hbc⟩ := setCommon_ew_fields fo c arch b0 hbtc hb0
+    obtain ⟨ifm0, hifm0, hifmeq⟩ := commonIfm_spec c arch b0.ifm hifm
+    unfold commonOfm at hofm
+    split at hofm
+    · cases hofm
+    · rename_i ofm0 hofm0
+      injection hofm with hofmeq
+      -- FmFits of the three feature maps
+      have hfitIfm : FmFits b0.ifm.fm maxAddr := by
+        rw [hifmeq]
+        refine fmFits_withQuant _ _ _ _ (createFm_region _ _ _ _ _ _ _ _ hifm0)
+          (wf.inTiles c.ifm c.ifmBox c.ifmShape0 _ ifm0 s10 (Or.inl (by rw [s1])) hifm0) ?_
+        intro x hx
+        rw [getIfmQuant_congr c0 c s1 s2] at hx
+        refine getIfmQuant_zp c0 c.ifm x hx (fun q hq => wf.zpIn c.ifm q ?_ hq)
+        rcases s10 with ⟨e1, _, _⟩ | ⟨e1, _, _⟩
+        · exact Or.inl e1
+        · exact Or.inr e1
+      have hfitOfm0 : FmFits b0.ofm.fm maxAddr ∧ b0.ofm.fm.shape = blockOf c0.ofmBox := by
+        rw [← hofmeq]
+        constructor
+        · refine fmFits_withQuant _ _ _ _ (createFm_region _ _ _ _ _ _ _ _ hofm0)
+            (wf.ofmTiles ofm0 (by rw [← s3, ← s4, ← s5, ← s1]; exact hofm0)) ?_
+          intro x hx
+          rw [getOfmQuant_congr c0 c s1 s2, s3] at hx
+          exact getOfmQuant_zp c0 c0.ofm x hx wf.zpOut
+        · rw [s4]; cases getOfmQuant c c.ofm <;> rfl
+      obtain ⟨hfitOfm, hshapeOfm⟩ := ewFinish_ofm_fits fo c0.op _ u maxAddr hu hfitOfm0.1
+      unfold toRecord at h
+      split at h
+      · cases h
+      · split at h
+        · cases h
+        · split at h
+          · cases h
+          · rename_i qs hqs
+            injection h with h
+            subst h
+            refine ⟨_, rfl, fitsBlock_nil _ _ ?_⟩
+            have hbifm : b.ifm = b0.ifm := by rw [hbeq]; rfl
+            have hbofm : b.ofm = u.ofm := by rw [hbeq]; rfl
+            have hbifm2 : b.ifm2 = i2 := by rw [hbeq]; rfl
+            constructor
+            · show FmFits b.ifm.fm maxAddr
+              rw [hbifm]; exact hfitIfm
+            · show 1 ≤ b.ifm.fm.shape.depth ∧ b.ifm.fm.shape.depth < 65537
+              rw [hbifm, hifmeq]
+              have : (withQuant { ifm0 with shape := ⟨(blockOf c.ifmBox).height, (blockOf c.ifmBox).width,
+                  getIfmDepth c.op.type.blockType c.ifmBox c.ofmBox⟩ } (getIfmQuant c c.ifm)).fm.shape.depth =
+                  getIfmDepth c.op.type.blockType c.ifmBox c.ofmBox := by
+                cases getIfmQuant c c.ifm <;> rfl
+              rw [this]
+              simp only [getIfmDepth, hbtc, s4]
+              exact wf.ofmBox.2.2
+            · show FmFits b.ofm.fm maxAddr
+              rw [hbofm]; exact hfitOfm
+            · show ShapeFits b.ofm.fm.shape
+              rw [hbofm, hshapeOfm]
+              show ShapeFits b0.ofm.fm.shape
+              rw [hfitOfm0.2]; exact wf.ofmBox
+            · intro f2 hf2
+              simp only [hbifm2, Option.map_eq_some_iff] at hf2
+              obtain ⟨f2B, hf2B, rfl⟩ := hf2
+              obtain ⟨t, bx, sh, fm2, htri, hfm2, S, hf2eq⟩ := hi2 f2B hf2B
+              have hfit2 : FmFits f2B.fm maxAddr := by
+                rw [hf2eq]
+                refine fmFits_withQuant _ _ _ _ (createFm_region _ _ _ _ _ _ _ _ hfm2)
+                  (wf.inTiles t bx sh _ fm2 htri (Or.inr rfl) hfm2) ?_
+                intro x hx
+                refine getIfmQuant_zp c0 t x hx (fun q hq => wf.zpIn t q ?_ hq)
+                rcases htri with ⟨e1, _, _⟩ | ⟨e1, _, _⟩
+                · exact Or.inl e1
+                · exact Or.inr e1
+              cases hqv : qs with
+              | none => simpa using hfit2
+              | some q =>
+                simp only
+                refine ⟨hfit2.zp, ?_⟩
+                exact hscalar _ q f2B.fm rfl (by simp [hqv]) (by simp [hbifm2, hf2B])
+            · intro k hk'
+              have : b.kernel = none := by rw [hbeq]; exact hk
+              simp only [this] at hk'; cases hk'
+            · intro p' hp'
+              have : b.padding = none := by rw [hbeq]; exact hp
+              simp only [this] at hp'; cases hp'
+            · intro rg hrg
+              have hwb : b.weights = b0.weights := by rw [hbeq]; rfl
+              simp only [hwb] at hrg
+              have hw0 : commonWeights c0 arch = .ok (b0.weights, b0.biases) := by
+                rw [← commonWeights_congr c0 c s6 s7 s8 arch]; exact hw
+              exact ⟨commonWeights_regions c0 arch _ _ hw0 rg (by simp [hrg]), (wf.ranges _ _ hw0 rg (by simp [hrg])).1,
+                (wf.ranges _ _ hw0 rg (by simp [hrg])).2⟩
+            · intro rg hrg
+              have hwb : b.biases = b0.biases := by rw [hbeq]; rfl
+              simp only [hwb] at hrg
+              have hw0 : commonWeights c0 arch = .ok (b0.weights, b0.biases) := by
+                rw [← commonWeights_congr c0 c s6 s7 s8 arch]; exact hw
+              exact ⟨commonWeights_regions c0 arch _ _ hw0 rg (by simp [hrg]), (wf.ranges _ _ hw0 rg (by simp [hrg])).1,
+                (wf.ranges _ _ hw0 rg (by simp [hrg])).2⟩
+            · show ShapeFits b.blockConfig
+              have : b.blockConfig = b0.blockConfig := by rw [hbeq]; rfl
+              rw [this, hbc, s9]; exact wf.blockConfig
+            · exact ho
+
 /-- **DMA**: source and destination carry legal regions — a lookup table goes to SHRAM (`0x103`, the one region outside
     0…7 the hardware accepts for a DMA), everything else to region 0…2 — and, for the transfer that buffers encoded weights,
     source address, destination address and length are multiples of 16 (what Ethos-U55 demands of every DMA) whenever the two
@@ -802,6 +980,51 @@ example : WellFormed scale_tensor scale_tensorArch 4294967296 where
     unfold PaddingFits; decide
   stripePads := by decide +kernel
   noTile := by decide +kernel
+  ranges := fun ws bs h r hr =>
+    of_decide_eq_true (List.all_eq_true.mp (of_toOption_all _
+      (fun p => (p.1 ++ p.2).all fun r => decide ((0 ≤ r.address ∧ r.address < 4294967296) ∧ (0 ≤ r.length ∧ r.length < 2 ^ 32)))
+      (by decide +kernel) (ws, bs) h) r hr)
+  blockConfig := by unfold ShapeFits; decide +kernel
+
+/-- (a) the hypotheses of `build_legal_elementwise` hold of the real SUB command whose operands the builder swaps -/
+example : WellFormedEw Example.swap swapArch 4294967296 where
+  inTiles := by
+    intro t bx sh offs fm htri hoffs h
+    have hall : ∀ (t : TensD) (bx : BoxD) (sh : TensorAddr.S4) (offs : List Nat),
+        (createFm t bx swapArch sh offs none false).toOption.all (fun x => decide (TilesFit x 4294967296)) = true →
+        createFm t bx swapArch sh offs none false = .ok fm → TilesFit fm 4294967296 :=
+      fun t bx sh offs hd hx => of_decide_eq_true (of_toOption_all _ _ hd fm hx)
+    have hoffs' : offs = [0, 0, 0, 0] := by
+      rcases hoffs with rfl | rfl <;> rfl
+    subst hoffs'
+    rcases htri with ⟨rfl, rfl, rfl⟩ | ⟨h1, h2, h3⟩
+    · exact hall _ _ _ _ (by decide +kernel) h
+    · simp only [Example.swap, Option.some.injEq] at h1 h2 h3
+      subst h1; subst h2; subst h3
+      exact hall _ _ _ _ (by decide +kernel) h
+  ofmTiles := fun fm h => of_decide_eq_true (of_toOption_all _ (fun x => decide (TilesFit x 4294967296)) (by decide +kernel) fm h)
+  zpIn := by
+    intro t q ht hq
+    have : q.zeroPoint = 6 ∨ q.zeroPoint = 59 := by
+      rcases ht with rfl | ht
+      · rcases hq with hq | hq
+        · simp only [Example.swap] at hq; injection hq with hq; left; rw [← hq]
+        · simp only [Example.swap] at hq; cases hq
+      · simp only [Example.swap, Option.some.injEq] at ht
+        subst ht
+        rcases hq with hq | hq
+        · simp only at hq; injection hq with hq; right; rw [← hq]
+        · simp only [Example.swap] at hq; cases hq
+    unfold ZpFits
+    rcases this with h | h <;> rw [h] <;> decide
+  zpOut := by
+    intro q h
+    have : q.zeroPoint = -56 := by
+      rcases h with h | h
+      · simp only [Example.swap] at h; injection h with h; rw [← h]
+      · simp only [Example.swap] at h; cases h
+    rw [this]; unfold ZpFits; decide
+  ofmBox := by unfold ShapeFits; decide +kernel
   ranges := fun ws bs h r hr =>
     of_decide_eq_true (List.all_eq_true.mp (of_toOption_all _
       (fun p => (p.1 ++ p.2).all fun r => decide ((0 ≤ r.address ∧ r.address < 4294967296) ∧ (0 ≤ r.length ∧ r.length < 2 ^ 32)))
